@@ -158,8 +158,54 @@ macro_rules! serde_types {
     };
 }
 
+/// `ideb <kind> <hex>`: decoding into BORROWING targets of the shared data model through both codecs:
+/// `str` (&str), `tup` ((&str, u8)), `vec` (Vec<&str>), `opt` (Option<&str>), `map` (BTreeMap<&str, &str>).
+/// Output `<native> | <bridge>`, each `ok <strings as hex, joined by ,> <position>` or `err <class> <position>`.
+fn op_ideb(kind: &str, a: &str) -> String {
+    let b = match sx::unhex(a) { Some(b) => b, None => return "bad-op".into() };
+    fn hx(s: &str) -> String { if s.is_empty() { "-".into() } else { hex(s.as_bytes()) } }
+    macro_rules! both { ($t:ty, $show:expr) => {{
+        let nat = { let mut d = minicbor::Decoder::new(&b); let r: Result<$t, _> = d.decode(); let pos = d.position();
+            match r { Ok(v) => format!("ok {} {}", $show(&v), pos), Err(e) => format!("err {} {}", class(&e.to_string()), pos) } };
+        let bri = { let mut d = minicbor_serde::Deserializer::new(&b); let r = <$t as serde::Deserialize>::deserialize(&mut d); let pos = d.decoder().position();
+            match r { Ok(v) => format!("ok {} {}", $show(&v), pos), Err(e) => format!("err {} {}", class(&e.to_string()), pos) } };
+        format!("{} | {}", nat, bri)
+    }} }
+    match kind {
+        "str" => both!(&str, |v: &&str| hx(v)),
+        "tup" => both!((&str, u8), |v: &(&str, u8)| format!("{},{}", hx(v.0), v.1)),
+        "vec" => both!(Vec<&str>, |v: &Vec<&str>| if v.is_empty() { "[]".to_string() } else { v.iter().map(|s| hx(s)).collect::<Vec<_>>().join(",") }),
+        "opt" => both!(Option<&str>, |v: &Option<&str>| match v { None => "N".to_string(), Some(s) => format!("S{}", hx(s)) }),
+        "map" => both!(BTreeMap<&str, &str>, |v: &BTreeMap<&str, &str>| if v.is_empty() { "{}".to_string() } else { v.iter().map(|(k, x)| format!("{}={}", hx(k), hx(x))).collect::<Vec<_>>().join(",") }),
+        _ => "bad-op".into()
+    }
+}
+
+/// `iserh <u8|i64|str> <v1,v2,…|->`: a `BinaryHeap` built by pushing the values in this order, written by both codecs:
+/// `<native hex> <bridge hex>` (the heap's internal order is not the push order; both codecs iterate the heap the same way).
+fn op_iserh(kind: &str, a: &str) -> String {
+    use std::collections::BinaryHeap;
+    let items: Vec<&str> = if a == "-" { Vec::new() } else { a.split(',').collect() };
+    macro_rules! go { ($t:ty, $parse:expr) => {{
+        let mut h = BinaryHeap::<$t>::new();
+        for x in &items { match $parse(x) { Some(v) => h.push(v), None => return "bad-op".into() } }
+        // a few pops and pushes so that the buffer is not simply a heapified push sequence
+        if h.len() > 3 { let top = h.pop(); let snd = h.pop(); if let Some(t) = top { h.push(t) } if let Some(t) = snd { h.push(t) } }
+        let n = match minicbor::to_vec(&h) { Ok(b) => hex(&b), Err(_) => "err".into() };
+        format!("{} {}", n, bridge_ser(&h))
+    }} }
+    match kind {
+        "u8" => go!(u8, |x: &&str| x.parse::<u8>().ok()),
+        "i64" => go!(i64, |x: &&str| x.parse::<i64>().ok()),
+        "str" => go!(String, |x: &&str| sx::unhex(x).and_then(|b| String::from_utf8(b).ok())),
+        _ => "bad-op".into()
+    }
+}
+
 fn dispatch(w: &[&str]) -> String {
     if w.len() != 3 { return "bad-op".into() }
+    if w[0] == "ideb" { return op_ideb(w[1], w[2]) }
+    if w[0] == "iserh" { return op_iserh(w[1], w[2]) }
     let (t, a) = (w[1], w[2]);
     match w[0] {
         "ser" => serde_types!(t, op_ser, a),
